@@ -1,6 +1,6 @@
 (* C11 — Hostile or malformed peer input is rejected with an error, never a crash.
    This file contains only property theorems (closed by [exact]), non-vacuity examples and [Print Assumptions].
-   Model: Model/Decoders.v; proofs: Proofs/Decoders*.v.
+   Model: Model/Decoders.v, Model/DecodersTree.v (over Model/Tree.v); proofs: Proofs/Decoders*.v.
 
    Shape of every theorem: for ALL inputs (all byte strings / all structures, unbounded) and ALL behaviours of
    the black-box collaborators (third-party crypto, generated protobuf decoders: arbitrary functions), the
@@ -9,6 +9,7 @@
    repaired code (fixes/C11-*.patch, fixes/C04-nil-readkeychange.patch, fixes/C13-nil-parts.patch). *)
 From Coq Require Import List NArith Bool Arith.
 Import ListNotations.
+From AnySync Require Import Lib.Dag Model.Tree Model.DecodersTree Proofs.TreeInc Proofs.DecodersTree.
 From AnySync Require Import Model.Decoders Proofs.DecodersBase Proofs.DecodersWire Proofs.DecodersStruct.
 Open Scope N_scope.
 
@@ -367,4 +368,56 @@ Example c11_struct_nonvacuous :
   class_of (apply_contents false false [AC_account_remove true None]) = CPanic /\
   class_of (apply_contents true true [AC_unset; AC_space_options true None]) = COk /\
   handle_range_request [] [5; 9; 20] [mkRange 9 5 true 0; mkRange 5 9 true 1] = Ok [(0, 0); (2, 2)].
+Proof. vm_compute. repeat split. Qed.
+
+(* ---- (9) tree-change entry point: objectTree.AddRawChanges on batches with hostile parent references / orders ----
+   Model: Model/DecodersTree.v over the tree of Model/Tree.v; proofs: Proofs/DecodersTree.v.
+   [run_ops ops]: any tree reached by Tree.Add / Tree.AddFast calls from the empty tree; batches are arbitrary lists
+   of changes (parents repeated, dangling, cyclic; any delivery order; repeated changes). *)
+(* Tree.Add reports every change at most once, and only changes of the batch *)
+Theorem c11_tree_add_reports_once : forall ops cs,
+  t_att (run_ops ops) <> [] ->
+  NoDup (snd (tree_add (run_ops ops) cs)) /\
+  (forall i, In i (snd (tree_add (run_ops ops) cs)) -> In i (ids cs)).
+Proof. exact tree_add_reports_once. Qed.
+Print Assumptions c11_tree_add_reports_once.
+
+(* ... which is exactly what createAddResult needs: a change reported twice dereferences its cleared rawChange *)
+Theorem c11_reported_twice_panics : forall raw i rest, exists w, create_add_result raw (i :: i :: rest) = Panic w.
+Proof. exact reported_twice_panics. Qed.
+Print Assumptions c11_reported_twice_panics.
+
+(* AddRawChanges (normal path) never panics: any reachable tree, any batch, any verdict of the validator *)
+Theorem c11_add_raw_changes_no_panic : forall ops valid batch w,
+  t_att (run_ops ops) <> [] -> snd (add_raw_normal valid (run_ops ops) batch) <> Panic w.
+Proof. exact add_raw_changes_no_panic. Qed.
+Print Assumptions c11_add_raw_changes_no_panic.
+
+(* a whole stream of batches against a fresh object tree: every delivered batch is accepted or rejected *)
+Theorem c11_add_raw_stream_no_panic : forall root bs row,
+  In row (add_raw_run (ta_init root) bs) -> spec_C11 (fst (fst row)) = true.
+Proof. exact add_raw_stream_no_panic. Qed.
+Print Assumptions c11_add_raw_stream_no_panic.
+
+Theorem c11_model_meets_spec_treeadd : forall root bs,
+  spec_C11_treeadd (map fst bs) (add_raw_run (ta_init root) bs) true true = true.
+Proof. exact add_raw_stream_meets_spec. Qed.
+Print Assumptions c11_model_meets_spec_treeadd.
+
+(* the design "the wait list holds the waiting changes, no second lookup in unAttached" (NOT the code) panics *)
+Theorem c11_ptr_waitlist_refuted : exists att batch w, p_add_raw att batch = Panic w.
+Proof. exact ptr_waitlist_refuted_ex. Qed.
+Print Assumptions c11_ptr_waitlist_refuted.
+
+(* non-vacuity: child 3 citing parent 2 twice, delivered before 2, on the tree {1}: the code attaches 3 once;
+   a stale wait entry of an earlier batch plus a re-delivery gives the same duplicate wait entry; the pointer
+   wait list reports 3 twice *)
+Example c11_treeadd_nonvacuous :
+  add_raw_run (ta_init (mkChange 1 [] 0 true)) [([mkChange 3 [2; 2] 1 false; mkChange 2 [1] 1 false], true)]
+    = [(COk, [2; 3], [3])] /\
+  add_raw_run (ta_init (mkChange 1 [] 0 true))
+    [([mkChange 3 [2] 1 false], true); ([mkChange 3 [2] 1 false; mkChange 2 [1] 1 false], true)]
+    = [(COk, [], [1]); (COk, [2; 3], [3])] /\
+  p_add_raw [1] [mkChange 3 [2; 2] 1 false; mkChange 2 [1] 1 false] = Panic PNil /\
+  p_add_raw [1] [mkChange 2 [1] 1 false; mkChange 3 [2; 2] 1 false] = Ok [2; 3].
 Proof. vm_compute. repeat split. Qed.
